@@ -6,16 +6,19 @@ package lib
 // and records outcome classes and policy decisions. No assertions about conjure.
 
 import (
+	"context"
 	"encoding/json"
 	"fmt"
-	golog "log"
 	"io"
+	golog "log"
 	"net"
 	"os"
 	"path/filepath"
 	"sort"
+	"strings"
 	"sync"
 	"testing"
+	"time"
 
 	"github.com/refraction-networking/conjure/pkg/station/liveness"
 	"github.com/refraction-networking/conjure/pkg/station/log"
@@ -37,21 +40,25 @@ type c19case struct {
 }
 
 type c19obs struct {
-	Parse    string          `json:"parse"`    // ok | err | panic
-	ParseMsg string          `json:"parse_msg"`
-	RegNil   bool            `json:"reg_nil"`  // embedded *RegConfig nil after a successful ParseConfig
-	Live     string          `json:"live"`     // ok | err   (liveness.New; err => NewRegistrationManager would log.Fatal)
-	Mgr      string          `json:"mgr"`      // ok | nil | panic | skipped
-	Reload   string          `json:"reload"`   // ok | panic | skipped (reload steps)
-	Prints   map[string]string `json:"prints"` // module -> ok | panic:<msg>
-	Expiry   string          `json:"expiry"`
-	Covert   []bool          `json:"covert"`   // probe n blocked as covert address
-	Loop     bool            `json:"loop"`     // 127.0.0.1 blocked as covert address
-	Domain   []bool          `json:"domain"`
-	Phantom  []bool          `json:"phantom"`
-	Gens     []int           `json:"gens"`
-	NParsed  []int           `json:"nparsed"` // parsed entries: covert block, allow, phantom, domains (of the parsed config)
-	NWritten []int           `json:"nwritten"`
+	Parse         string            `json:"parse"` // ok | err | panic
+	ParseMsg      string            `json:"parse_msg"`
+	RegNil        bool              `json:"reg_nil"` // embedded *RegConfig nil after a successful ParseConfig
+	Live          string            `json:"live"`    // ok | err   (liveness.New; err => NewRegistrationManager would log.Fatal)
+	Mgr           string            `json:"mgr"`     // ok | nil | panic | skipped
+	Reload        string            `json:"reload"`  // ok | panic | skipped (reload steps)
+	Prints        map[string]string `json:"prints"`  // module -> ok | panic:<msg>
+	Expiry        string            `json:"expiry"`
+	Covert        []bool            `json:"covert"` // probe n blocked as covert address
+	Loop          bool              `json:"loop"`   // 127.0.0.1 blocked as covert address
+	Domain        []bool            `json:"domain"`
+	Phantom       []bool            `json:"phantom"`
+	Gens          []int             `json:"gens"`
+	GenSig        string            `json:"gensig"`         // generations with their subnets, canonical text
+	Pipe          string            `json:"pipe"`           // start-up: ok | panic:<msg> | timeout (HandleRegUpdates launched on this configuration)
+	PipeCap       int               `json:"pipecap"`        // cap(ingestChan)+1 once the pipeline runs, 0 = nil channel
+	PrintsRunning map[string]string `json:"prints_running"` // the printers again, with the ingest pipeline running
+	NParsed       []int             `json:"nparsed"`        // parsed entries: covert block, allow, phantom, domains (of the parsed config)
+	NWritten      []int             `json:"nwritten"`
 }
 
 type c19res struct {
@@ -134,9 +141,47 @@ func c19prints(rm *RegistrationManager, logger *log.Logger) map[string]string {
 	return m
 }
 
+// c19startPipeline launches the real HandleRegUpdates (main.go:167) and waits until it has created the job buffer.
+func c19startPipeline(rm *RegistrationManager) (status string, stop func()) {
+	ctx, cancel := context.WithCancel(context.Background())
+	wg := new(sync.WaitGroup)
+	regChan := make(chan interface{}, 4)
+	res := make(chan string, 1)
+	wg.Add(1)
+	go func() {
+		res <- c19guard(func() { rm.HandleRegUpdates(ctx, regChan, wg) })
+	}()
+	stop = func() {
+		cancel()
+		select {
+		case <-res:
+		case <-time.After(5 * time.Second):
+		}
+	}
+	deadline := time.Now().Add(3 * time.Second)
+	for time.Now().Before(deadline) {
+		select {
+		case st := <-res: // returned (or panicked) before it was cancelled
+			res <- st
+			if st == "ok" {
+				st = "returned"
+			}
+			return st, stop
+		default:
+		}
+		if rm.ingestChan != nil {
+			return "ok", stop
+		}
+		time.Sleep(50 * time.Microsecond)
+	}
+	return "timeout", stop
+}
+
 func c19run(c c19case, dir, shipped string) (r c19res) {
 	logger := log.New(io.Discard, "[C19] ", golog.Ldate)
 	var rm *RegistrationManager
+	stopPipeline := func() {}
+	defer func() { stopPipeline() }()
 	for i, st := range c.Steps {
 		var o c19obs
 		o.Prints = map[string]string{}
@@ -203,16 +248,36 @@ func c19run(c c19case, dir, shipped string) (r c19res) {
 		if rm != nil {
 			o.Prints = c19prints(rm, logger)
 			o.Expiry = c19guard(func() { rm.RemoveOldRegistrations() })
+			if i == 0 {
+				o.Pipe, stopPipeline = c19startPipeline(rm)
+			}
+			if rm.ingestChan != nil {
+				o.PipeCap = cap(rm.ingestChan) + 1
+			}
+			o.PrintsRunning = c19prints(rm, logger)
+			if g := c19guard(func() { rm.RemoveOldRegistrations() }); g != "ok" {
+				o.PrintsRunning["expiry"] = g
+			}
 			if g := c19guard(func() { c19decisions(rm.RegConfig, &o, c.NProbe) }); g != "ok" {
 				o.Prints["decisions"] = g
 			}
 			if rm.PhantomSelector == nil {
 				o.Gens = []int{-1} // no selector at all
 			} else {
-				for gen := range rm.PhantomSelector.Networks {
+				var sig []string
+				for gen, sc := range rm.PhantomSelector.Networks {
 					o.Gens = append(o.Gens, int(gen))
+					line := fmt.Sprintf("%d:", gen)
+					if sc != nil {
+						for _, ws := range sc.WeightedSubnets {
+							line += fmt.Sprintf("[%d %v %v]", ws.GetWeight(), ws.GetSubnets(), ws.GetRandomizeDstPort())
+						}
+					}
+					sig = append(sig, line)
 				}
 				sort.Ints(o.Gens)
+				sort.Strings(sig)
+				o.GenSig = strings.Join(sig, ";")
 			}
 		} else if o.Parse == "ok" && conf.RegConfig != nil {
 			// policy of the parsed configuration itself (no manager was built)
